@@ -4,7 +4,8 @@ CONF = {
     "level_text": "D(base) comes from linting the base program; the expectation for each variant is derived by the harness from the documented coverage of the directive (statement span, rule list). Both leaks (something else disappears) and misses (a covered diagnostic remains) are detected. Exploration of generated programs/placements only.",
     "campaigns": [rapid("rapid", 40000, 800000)],
     "assumptions": [
-        "a trailing falco-ignore is generated only on simple statements; every -start has its -end; ranges do not overlap each other; declaration statements (whose unused-* diagnostics are emitted later) are never covered",
+        "a trailing falco-ignore is generated only on simple statements; every -start has its -end; independent ranges do not overlap each other; declaration statements (whose unused-* diagnostics are emitted later) are never covered",
+        "stacked falco-ignore-next-line comments in front of one statement cover the union of their rule lists; rule-listed -start comments accumulate until `falco-ignore-end <rules>` re-enables those rules or a bare -end re-enables all (docs/linter.md, Range ignoring, last example)",
         "falco-ignore-next-line on an if statement covers the whole compound statement",
     ],
 }
